@@ -402,14 +402,13 @@ func runSequence(r *vh.Rand, o *vh.Out, n int) []byte {
 			continue
 		}
 		g := gens[i]
-		one := "c38m\t" + want[i]
 		switch {
 		case g.bigID:
-			o.Oracle("int64-id-float64", one, res.msgs[i])
+			o.Oracle("int64-id-float64", rline, want[i]+" => "+res.msgs[i])
 		case !g.domain:
 			o.Count("outside_domain_differs_" + g.why)
 		default:
-			o.Oracle("msg-roundtrip", one, res.msgs[i])
+			o.Oracle("msg-roundtrip", rline, want[i]+" => "+res.msgs[i])
 		}
 	}
 	return stream
@@ -591,9 +590,9 @@ func main() {
 	o := vh.NewOut(f.Out)
 	defer o.Close()
 	if f.Replay != "" {
-		fs := strings.Split(f.Replay, "\t")
+		fs := strings.Fields(f.Replay)
 		if len(fs) < 2 {
-			fs = strings.Fields(f.Replay)
+			fs = append(fs, "-")
 		}
 		switch fs[0] {
 		case "c38r":
